@@ -10,4 +10,5 @@ open Emboss.Scalar
 #print axioms C02_le_be_paths_agree
 #print axioms C02_enum_read_unsigned
 #print axioms C02_enum_read_signed_partial
+#print axioms C02_read_eq_spec
 #print axioms C02_enum_signed_narrow_counterexample
